@@ -2565,3 +2565,253 @@ pub proof fn lemma_leaf_removed_frame<T>(s0: Seq<Node<T>>, s1: Seq<Node<T>>, s2:
     }
 }
 
+// ---- traversals (C09, C10) -----------------------------------------------------------------------
+pub open spec fn lnk<T>(n: Node<T>, by_next: bool) -> Option<NodeId> {
+    if by_next {
+        n.next_sibling
+    } else {
+        n.previous_sibling
+    }
+}
+
+pub open spec fn rk(w: Ranks, i: int, by_next: bool) -> nat {
+    if by_next {
+        (w.rem)(i)
+    } else {
+        (w.pos)(i)
+    }
+}
+
+/// the documented sequence of a sibling walk: the start node first, then the later (by_next) or
+/// earlier (!by_next) siblings in order
+pub open spec fn walk<T>(s: Seq<Node<T>>, w: Ranks, id: NodeId, by_next: bool) -> Seq<NodeId>
+    decreases rk(w, id.idx(), by_next),
+{
+    let i = id.idx();
+    if 0 <= i < s.len() && lnk(s[i], by_next) is Some && rk(w, lnk(s[i], by_next)->0.idx(), by_next) < rk(w, i, by_next) {
+        seq![id] + walk(s, w, lnk(s[i], by_next)->0, by_next)
+    } else {
+        seq![id]
+    }
+}
+
+/// d is a doubly linked run of live siblings (the ghost deque of the double-ended iterators)
+pub open spec fn run_ok<T>(s: Seq<Node<T>>, d: Seq<NodeId>, by_next: bool) -> bool {
+    &&& forall|k: int| 0 <= k < d.len() ==> tgt_ok(s, Some(#[trigger] d[k]))
+    &&& forall|k: int|
+        0 <= k < d.len() - 1 ==> lnk(s[(#[trigger] d[k]).idx()], by_next) == Some(d[k + 1]) && lnk(s[d[k + 1].idx()], !by_next) == Some(
+            d[k],
+        )
+    &&& forall|j: int, k: int| 0 <= j < k < d.len() ==> (#[trigger] d[j]).idx() != (#[trigger] d[k]).idx()
+}
+
+/// C10: state of a double-ended iterator relative to the ghost deque d of elements still to yield
+pub open spec fn deq<T>(s: Seq<Node<T>>, head: Option<NodeId>, tail: Option<NodeId>, d: Seq<NodeId>, by_next: bool) -> bool {
+    &&& d.len() == 0 ==> head is None && tail is None
+    &&& d.len() > 0 ==> head == Some(d[0]) && tail == Some(d[d.len() - 1])
+    &&& run_ok(s, d, by_next)
+}
+
+pub proof fn lemma_walk<T>(s: Seq<Node<T>>, w: Ranks, id: NodeId, by_next: bool)
+    requires
+        links_ok(s),
+        ranked(s, w),
+        tgt_ok(s, Some(id)),
+    ensures
+        ({
+            let d = walk(s, w, id, by_next);
+            &&& d.len() > 0 && d[0] == id
+            &&& run_ok(s, d, by_next)
+            &&& lnk(s[d[d.len() - 1].idx()], by_next) is None
+            &&& forall|k: int| 0 <= k < d.len() ==> s[(#[trigger] d[k]).idx()].parent == s[id.idx()].parent && rk(w, d[k].idx(), by_next) <= rk(
+                w,
+                id.idx(),
+                by_next,
+            ) && (k > 0 ==> rk(w, d[k].idx(), by_next) < rk(w, id.idx(), by_next))
+        }),
+    decreases rk(w, id.idx(), by_next),
+{
+    reveal(node_ok);
+    let i = id.idx();
+    assert(node_ok(s, i));
+    assert(ranked_at(s, w, i));
+    let d = walk(s, w, id, by_next);
+    if lnk(s[i], by_next) is Some {
+        let nx = lnk(s[i], by_next)->0;
+        let j = nx.idx();
+        assert(node_ok(s, j));
+        assert(ranked_at(s, w, j));
+        assert(rk(w, j, by_next) < rk(w, i, by_next));
+        lemma_walk(s, w, nx, by_next);
+        let e = walk(s, w, nx, by_next);
+        assert(d =~= seq![id] + e);
+        lemma_id_eq(lnk(s[j], !by_next)->0, id);
+        assert forall|k: int| 0 <= k < d.len() implies tgt_ok(s, Some(#[trigger] d[k])) by {
+            if k > 0 {
+                assert(d[k] == e[k - 1]);
+            }
+        }
+        assert forall|k: int| 0 <= k < d.len() - 1 implies lnk(s[(#[trigger] d[k]).idx()], by_next) == Some(d[k + 1]) && lnk(
+            s[d[k + 1].idx()],
+            !by_next,
+        ) == Some(d[k]) by {
+            if k > 0 {
+                assert(d[k] == e[k - 1]);
+                assert(d[k + 1] == e[k]);
+            } else {
+                assert(d[1] == e[0]);
+            }
+        }
+        assert forall|k: int| 0 <= k < d.len() implies s[(#[trigger] d[k]).idx()].parent == s[id.idx()].parent && rk(w, d[k].idx(), by_next)
+            <= rk(w, id.idx(), by_next) && (k > 0 ==> rk(w, d[k].idx(), by_next) < rk(w, id.idx(), by_next)) by {
+            if k > 0 {
+                assert(d[k] == e[k - 1]);
+            }
+        }
+        assert forall|a: int, b: int| 0 <= a < b < d.len() implies (#[trigger] d[a]).idx() != (#[trigger] d[b]).idx() by {
+            assert(d[b] == e[b - 1]);
+            if a > 0 {
+                assert(d[a] == e[a - 1]);
+            }
+        }
+        assert(d[d.len() - 1] == e[e.len() - 1]);
+    } else {
+        assert(d =~= seq![id]);
+    }
+}
+
+/// popping either end of the ghost deque
+pub proof fn lemma_deq_pop<T>(s: Seq<Node<T>>, d: Seq<NodeId>, by_next: bool)
+    requires
+        run_ok(s, d, by_next),
+        d.len() > 0,
+    ensures
+        run_ok(s, d.drop_first(), by_next),
+        run_ok(s, d.drop_last(), by_next),
+        d.len() > 1 ==> d[0] != d[d.len() - 1],
+{
+    let t = d.drop_first();
+    assert forall|k: int| 0 <= k < t.len() implies tgt_ok(s, Some(#[trigger] t[k])) by {
+        assert(t[k] == d[k + 1]);
+    }
+    assert forall|k: int| 0 <= k < t.len() - 1 implies lnk(s[(#[trigger] t[k]).idx()], by_next) == Some(t[k + 1]) && lnk(
+        s[t[k + 1].idx()],
+        !by_next,
+    ) == Some(t[k]) by {
+        assert(t[k] == d[k + 1]);
+        assert(t[k + 1] == d[k + 2]);
+    }
+    assert forall|j: int, k: int| 0 <= j < k < t.len() implies (#[trigger] t[j]).idx() != (#[trigger] t[k]).idx() by {
+        assert(t[j] == d[j + 1]);
+        assert(t[k] == d[k + 1]);
+    }
+    let u = d.drop_last();
+    assert forall|k: int| 0 <= k < u.len() implies tgt_ok(s, Some(#[trigger] u[k])) by {
+        assert(u[k] == d[k]);
+    }
+    assert forall|k: int| 0 <= k < u.len() - 1 implies lnk(s[(#[trigger] u[k]).idx()], by_next) == Some(u[k + 1]) && lnk(
+        s[u[k + 1].idx()],
+        !by_next,
+    ) == Some(u[k]) by {
+        assert(u[k] == d[k]);
+        assert(u[k + 1] == d[k + 1]);
+    }
+    assert forall|j: int, k: int| 0 <= j < k < u.len() implies (#[trigger] u[j]).idx() != (#[trigger] u[k]).idx() by {
+        assert(u[j] == d[j]);
+        assert(u[k] == d[k]);
+    }
+    if d.len() > 1 {
+        assert(d[0].idx() != d[d.len() - 1].idx());
+    }
+}
+
+pub proof fn lemma_walk_indep<T>(s: Seq<Node<T>>, w1: Ranks, w2: Ranks, id: NodeId, by_next: bool)
+    requires
+        links_ok(s),
+        ranked(s, w1),
+        ranked(s, w2),
+        tgt_ok(s, Some(id)),
+    ensures
+        walk(s, w1, id, by_next) == walk(s, w2, id, by_next),
+    decreases rk(w1, id.idx(), by_next),
+{
+    reveal(node_ok);
+    let i = id.idx();
+    assert(node_ok(s, i));
+    assert(ranked_at(s, w1, i));
+    assert(ranked_at(s, w2, i));
+    if lnk(s[i], by_next) is Some {
+        let nx = lnk(s[i], by_next)->0;
+        assert(node_ok(s, nx.idx()));
+        assert(ranked_at(s, w1, nx.idx()));
+        assert(ranked_at(s, w2, nx.idx()));
+        lemma_walk_indep(s, w1, w2, nx, by_next);
+    }
+}
+
+/// the far end of the walk from x is what x's parent names as its last (first) child
+pub proof fn lemma_walk_end<T>(s: Seq<Node<T>>, w: Ranks, id: NodeId, by_next: bool)
+    requires
+        links_ok(s),
+        ranked(s, w),
+        tgt_ok(s, Some(id)),
+    ensures
+        ({
+            let d = walk(s, w, id, by_next);
+            let e = d[d.len() - 1];
+            s[id.idx()].parent is Some ==> {
+                let p = s[id.idx()].parent->0.idx();
+                0 <= p < s.len() && (if by_next {
+                    s[p].last_child
+                } else {
+                    s[p].first_child
+                }) == Some(e)
+            }
+        }),
+{
+    reveal(node_ok);
+    lemma_walk(s, w, id, by_next);
+    let d = walk(s, w, id, by_next);
+    let e = d[d.len() - 1];
+    assert(tgt_ok(s, Some(e)));
+    assert(node_ok(s, e.idx()));
+    assert(node_ok(s, id.idx()));
+    assert(s[e.idx()].parent == s[id.idx()].parent);
+    if s[id.idx()].parent is Some {
+        let p = s[id.idx()].parent->0.idx();
+        if by_next {
+            lemma_id_eq(s[p].last_child->0, e);
+        } else {
+            lemma_id_eq(s[p].first_child->0, e);
+        }
+    }
+}
+
+/// C09: the documented children sequence of p (in order), and its reverse
+pub open spec fn children_seq<T>(s: Seq<Node<T>>, w: Ranks, p: int) -> Seq<NodeId> {
+    if s[p].first_child is Some {
+        walk(s, w, s[p].first_child->0, true)
+    } else {
+        Seq::empty()
+    }
+}
+
+pub proof fn lemma_children_deq<T>(s: Seq<Node<T>>, w: Ranks, p: int)
+    requires
+        links_ok(s),
+        ranked(s, w),
+        0 <= p < s.len(),
+    ensures
+        deq(s, s[p].first_child, s[p].last_child, children_seq(s, w, p), true),
+{
+    reveal(node_ok);
+    assert(node_ok(s, p));
+    if s[p].stamp.removed() {
+    } else if s[p].first_child is Some {
+        let fc = s[p].first_child->0;
+        lemma_walk(s, w, fc, true);
+        lemma_walk_end(s, w, fc, true);
+        assert(node_ok(s, fc.idx()));
+    }
+}
+
